@@ -1056,11 +1056,13 @@ struct ConnEngine : Engine
 				"listening, closed and never-listening endpoints, closes of acceptors/connectors/accepted sockets, at generated virtual instants over routes with "
 				"varied latency; after establishment both ends write a unique tag. Oracle: success implies a listener at issue time, successes and accepts pair one-to-one "
 				"in SYN arrival order (from the probe in front of the acceptor), refused connects complete with connection_refused after a positive delay, the endpoint "
-				"equalities of the statement, tags only at the paired socket. distinct = distinct shape hash; non-trivial = a pair exchanged data or a connect was refused";
+				"equalities of the statement, tags only at the paired socket. Also: acceptors bound but not listening, connections handed to another socket object in mid-stream, "
+				"an accept whose connect never completes, a path MTU per pair of real addresses. distinct = distinct shape hash; non-trivial = a pair exchanged data or a connect was refused";
 		return "the C07 generator with NAT hops in outgoing routes (own external address, or several nodes behind one), plus UDP sockets exchanging datagrams; oracle: "
 			"receiver-visible source = NAT external address + sender's port in the accepted socket's remote_endpoint, the accept-reported peer and the UDP sender endpoint; "
 			"real address without NAT; sender's local endpoint, payload and order unchanged; every completion happens at the same virtual time as in a control run with the NAT "
-			"replaced by a pass-through hop. distinct = distinct shape hash; non-trivial = a NAT was on some route and traffic crossed it";
+			"replaced by a pass-through hop. NAT variants: own, shared, chained, first address only, IPv6 senders behind the IPv4 NAT; UDP sockets re-bound to the node's other "
+			"address; in some runs several hosts behind one external address dial from the same local port. distinct = distinct shape hash; non-trivial = a NAT was on some route and traffic crossed it";
 	}
 	int64_t budget(std::string const&, int tier) const override { return tier ? 400000 : 20000; }
 	std::vector<std::string> stub_components() const override
